@@ -39,7 +39,7 @@ def _alarm(signum, frame):
 
 
 def plan(tier):
-    return 16000 if tier == "quick" else 400000
+    return 20000 if tier == "quick" else 400000
 
 
 def boot_blob(n, sig=True):
@@ -95,7 +95,10 @@ def build_seed(k):
         # El Torito (+ isohybrid for 5)
         h.apply({'op': 'add_fp', 'cid': 700, 'length': 2048, 'data': boot_blob(2048), 'iso_path': '/BOOT.;1',
                  **({'rr_name': 'boot'} if cfg.rr else {}), **({'joliet_path': '/boot'} if cfg.joliet else {}), **({'udf_path': '/boot'} if cfg.udf else {})})
-        h.apply({'op': 'add_eltorito', 'bootfile_path': '/BOOT.;1', 'boot_load_size': 4, 'boot_info_table': k == 4})
+        # (seed 4: the boot catalog under the smallest identifier there is, so that its record is the
+        # first one met in the root directory)
+        h.apply(dict({'op': 'add_eltorito', 'bootfile_path': '/BOOT.;1', 'boot_load_size': 4, 'boot_info_table': k == 4},
+                     **({'bootcatfile': '/0.;1', 'rr_bootcatname': 'cat0', 'joliet_bootcatfile': '/0cat'} if k == 4 else {})))
         h.apply({'op': 'add_fp', 'cid': 701, 'length': 5000, 'data': boot_blob(5000), 'iso_path': '/BOOT2.;1',
                  **({'rr_name': 'boot2'} if cfg.rr else {}), **({'joliet_path': '/boot2'} if cfg.joliet else {}), **({'udf_path': '/boot2'} if cfg.udf else {})})
         h.apply({'op': 'add_eltorito', 'bootfile_path': '/BOOT2.;1', 'platform_id': 0xef, 'efi': True})
@@ -134,6 +137,17 @@ def build_seed(k):
     for vol_ in dec['ecma'].volumes:
         base_ = vol_.vd.sector * 2048
         ranges.append(('vd-numbers', base_ + 80, base_ + 140))
+    # directory records as structures of their own: the first records of every directory (files and
+    # directories, the boot catalog among them), whose extent and length come in both byte orders
+    for vol_ in dec['ecma'].volumes:
+        per_dir = {}
+        for path_, node_ in sorted(vol_.tree.items()):
+            par_ = path_.rsplit('/', 1)[0]
+            if per_dir.get(par_, 0) >= 3 or not isinstance(node_.rec_offset, int):
+                continue
+            per_dir[par_] = per_dir.get(par_, 0) + 1
+            if 0 < node_.rec_offset < len(data) - 34:
+                ranges.append(('dr-numbers', node_.rec_offset, node_.rec_offset + 33))
     rr_ = dec.get('susp')
     if rr_ is not None and getattr(rr_, 'present', False):
         # System Use entries: the 4-byte header (signature, length, version) of a few entries of
@@ -343,6 +357,13 @@ def sweep_list(k):
                     for v in (0, 1, 0xffff if w == 'both16' else 0xffffffff, 0x8000 if w == 'both16' else 0x80000000):
                         out.append((kind, s_ + rel, w, v))
                 continue
+            if kind == 'dr-numbers':
+                nsec_ = len(data) // 2048
+                for rel, vals in ((2, (0, 16, nsec_ - 1, nsec_, 0x7fffffff, 0xffffffff)),
+                                  (10, (0, 1, 2049, len(data), 0x7fffffff, 0xffffffff))):
+                    for v in vals:
+                        out.append((kind, s_ + rel, 'both32', v))
+                continue
             if kind.startswith('susp-'):
                 # the length byte of a System Use entry a little shorter / longer than it is
                 cur = data[s_ + 2]
@@ -404,7 +425,7 @@ def run_case(i, seed_, tier):
     k = i % NSEEDS
     cs = seed_ * 10000019 + i
     sweep = None
-    nsweep = 9000 if tier == 'quick' else 60000
+    nsweep = 13000 if tier == 'quick' else 60000
     if i < nsweep:
         lst = sweep_list(k)
         if lst:
